@@ -921,8 +921,104 @@ func runC14(r *Report) {
 			continue
 		}
 		ok := len(reads) > 0 && len(writes) > 0
+		// the section may be held through a release function: `defer h.lockList(key)()` - a helper of the
+		// facade that locks a mutex (one per list key, or one for all) and returns the closure that
+		// unlocks it, called with the list key before the read and released only by defer
+		viaRelease := func(in ssa.Instruction) bool {
+			heldBy := false
+			Instrs(f, func(x ssa.Instruction) {
+				d, isD := x.(*ssa.Defer)
+				if !isD || heldBy {
+					return
+				}
+				acq, _ := CallOfValue(d.Call.Value)
+				if acq == nil {
+					return
+				}
+				h := acq.Common().StaticCallee()
+				if h == nil || h.Pkg != f.Pkg || len(h.Blocks) == 0 {
+					return
+				}
+				// the helper locks a mutex and returns a closure that unlocks one
+				locks, releases := false, false
+				Instrs(h, func(y ssa.Instruction) {
+					if c2, ok := y.(*ssa.Call); ok {
+						if _, op, ok := lockOp(c2); ok && op == "Lock" {
+							locks = true
+						}
+					}
+				})
+				for _, ret := range Returns(h) {
+					for i := range ret.Results {
+						if mc, ok := stripValue(RetVal(ret, i)).(*ssa.MakeClosure); ok {
+							if cl, ok := mc.Fn.(*ssa.Function); ok {
+								Instrs(cl, func(y ssa.Instruction) {
+									if c3, ok := y.(ssa.CallInstruction); ok {
+										if _, op3, ok := lockOp(c3); ok && op3 == "Unlock" {
+											releases = true
+										}
+									}
+								})
+							}
+						}
+					}
+				}
+				// the mutex must stay the one for its key while anyone holds or waits for it: an entry of a
+				// lock table is removed only on the edge where a use count has reached zero (an unconditional
+				// removal lets a newcomer create a second mutex while a waiter still queues on the first)
+				stable := true
+				scan := []*ssa.Function{h}
+				scan = append(scan, h.AnonFuncs...)
+				for _, g := range scan {
+					Instrs(g, func(y ssa.Instruction) {
+						c2, ok := y.(*ssa.Call)
+						if !ok {
+							return
+						}
+						removal := CalleeOf(c2).Is("sync:Map.Delete", "sync:Map.LoadAndDelete", "sync:Map.CompareAndDelete")
+						if b, isB := c2.Call.Value.(*ssa.Builtin); isB && b.Name() == "delete" {
+							removal = true
+						}
+						if !removal {
+							return
+						}
+						counted := false
+						for _, ft := range Facts(y.Block()) {
+							if bo, isBo := ft.Cond.(*ssa.BinOp); isBo {
+								if k, isK := ConstInt(bo.Y); isK && k == 0 && ((bo.Op == token.EQL && ft.Pol) || (bo.Op == token.LEQ && ft.Pol) || (bo.Op == token.NEQ && !ft.Pol) || (bo.Op == token.GTR && !ft.Pol)) {
+									counted = true
+								}
+							}
+						}
+						if !counted {
+							stable = false
+						}
+					})
+				}
+				if !locks || !releases || !stable {
+					return
+				}
+				// keyed by the list key of this operation (or by nothing: one lock for all lists)
+				keyed := true
+				for i, a := range acq.Call.Args {
+					if i == 0 {
+						continue // receiver
+					}
+					if b, isB := a.Type().Underlying().(*types.Basic); isB && b.Kind() == types.String {
+						if p, isP := stripValue(a).(*ssa.Parameter); !isP || p != f.Params[1] {
+							keyed = false
+						}
+					}
+				}
+				ai := ssa.Instruction(acq)
+				if keyed && (ai.Block() == in.Block() && Before(ai, in) || (ai.Block() != in.Block() && ai.Block().Dominates(in.Block()))) {
+					heldBy = true
+				}
+			})
+			return heldBy
+		}
 		for _, c := range append(append([]ssa.CallInstruction{}, reads...), writes...) {
-			if r.held(ls, c.(ssa.Instruction), "internal/core/storage/hybrid", "Storage", "listMu") != "W" {
+			if r.held(ls, c.(ssa.Instruction), "internal/core/storage/hybrid", "Storage", "listMu") != "W" && !viaRelease(c.(ssa.Instruction)) {
 				ok = false
 			}
 		}
@@ -947,7 +1043,7 @@ func runC14(r *Report) {
 				}
 			}
 		}
-		r.Ob("R-C14-4", f.Pos(), ok, "the list read (GetList) and the write-back (Set) happen in one section of listMu, so concurrent appends/removes cannot overwrite each other", name, "atomic-list-update")
+		r.Ob("R-C14-4", f.Pos(), ok, "the list read (GetList) and the write-back (Set) happen in one locked section (listMu, or a stable per-key lock held through a release function), so concurrent appends/removes cannot overwrite each other", name, "atomic-list-update")
 	}
 }
 
